@@ -66,6 +66,7 @@ type faultPlan struct {
 	flipWriteOff int
 	cutAt        int64 // absolute offset after which the direction is cut (-1 none)
 	cutDir       int
+	cutHard      bool // the cut resets the connection (reads fail with an error) instead of closing it (EOF)
 	stallAt      int64 // absolute offset at which delivery stalls until a deadline fires (-1 none)
 	stallDir     int
 	resetAt      int
@@ -177,9 +178,13 @@ func (s *Session) run(maxSteps int) {
 			if k < 0 {
 				k = 0
 			}
-			h.cut(k)
+			h.cut(k, s.plan.cutHard)
 			s.cutDone = true
-			s.stats.Inc("fault.truncate-close")
+			if s.plan.cutHard {
+				s.stats.Inc("fault.truncate-reset")
+			} else {
+				s.stats.Inc("fault.truncate-close")
+			}
 			s.log.Addf("sched: cut dir=%d off=%d", d, s.plan.cutAt)
 			continue
 		}
@@ -271,6 +276,7 @@ func (s *Session) drawPlan(faults bool, total int64) {
 		s.plan.flipAt, s.plan.flipDir, s.plan.flipBit = off(), t.Choose(2), t.Choose(8)
 	case 2:
 		s.plan.cutAt, s.plan.cutDir = off(), t.Choose(2)
+		s.plan.cutHard = t.Chance(1, 3)
 	case 3:
 		s.plan.stallAt, s.plan.stallDir = off(), t.Choose(2)
 	}
